@@ -594,8 +594,8 @@ Definition sym_step_gen (fixed : bool) (s : ystate) (l : sline) : outcome ystate
       match num_of v with
       | Some i =>
           if h then ystep_set s (fun f => yf_upd f i (yf_ext f) (yf_size f) (yf_cycle f))
-          else if fixed then Fail (record_error s)
-          (* the reader as found cuts the last character off whatever it is: the last hex digit is lost *)
+          (* no 'h' suffix: the reader (repaired or not - whether a plain number is legal in PEAK's format is left open, so
+             nothing was changed here) cuts the last character off whatever it is: the last hex digit is lost *)
           else if i <? 16 then Fail (record_error s)
           else ystep_set s (fun f => yf_upd f (i / 16) (yf_ext f) (yf_size f) (yf_cycle f))
       | None => Fail (record_error s)
@@ -631,7 +631,7 @@ Definition sym_post (s : ystate) : option (list yframe * nat) :=
 Definition sym_malformed (l : sline) : bool :=
   match l with
   | YHeader _ c => negb c
-  | YId v h => not_num v || negb h
+  | YId v h => not_num v
   | YType _ => false
   | YDlc v | YCycle v => not_num v
   | YVar n t st sz _ ok => is_bad n || not_num t || not_num st || not_num sz || negb ok
